@@ -8,17 +8,19 @@ Go anchors
   internal/concurrent/pool.go          workerPool.execTask (recover → task.panicHandle)
   query/context/leaf_execute_context.go  LeafExecuteContext.SendResponse (second CAS)
 
-A *stage tree* gives, for every stage, whether it runs on a worker pool (`async`), what its
-execution does (`ok | error | panic`) and which stages `NextStages()` plans after a successful
-execution.  The semantics is small-step: every goroutine (the caller of `pipeline.Execute` and one
+A *stage tree* gives, for every stage, how it is run (`inline`, `pooled`, or pooled but `rejected`
+by its pool: stopped pool / cancelled context), whether its `Plan()` panics, what its execution does
+(`ok | error | panic | nextPanic` = `NextStages()` panics in the completion handler) and which stages
+`NextStages()` plans after a successful execution.  The semantics is small-step: every goroutine (the caller of `pipeline.Execute` and one
 per pooled task) is a list of pending atomic instructions (its flattened continuation); one step
 executes the first instruction of one goroutine.  The atomic instructions are exactly the code's
 critical sections and atomic operations:
 
   start s     pipeline.executeStage entry: `stage == nil || p.sm.isCompleted()` (atomic load of `completed`)
   register s  sm.executeStage: one critical section under sm.mutex, contains `sm.pending.Inc()`
-  launch s    `stage.Execute(stage.Plan(), …)`: pooled → `execPool.Submit(task)` (a new goroutine), else inline
-  exec s      `execFn`: `stage.execute(node)` returns nil / an error / panics
+  launch s    `stage.Execute(stage.Plan(), …)`: `Plan()` (may panic), then pooled → `execPool.Submit(task)`
+              (a new goroutine, or nothing when the pool rejects the task), else inline
+  exec s      `execFn`: `stage.execute(node)` returns nil / an error / panics, or `NextStages()` panics
   track e     completeStage(stageID, err), first part: the critical section under sm.mutex
   dec e       completeStage, second part: `sm.pending.Dec() == 0`
   load own    (repaired variant only) read of the remembered first error under sm.mutex
@@ -34,26 +36,45 @@ stage reported (the repaired step order, fixes/C19-first-error.patch).
 -/
 namespace LinVerif.Pipeline
 
-/-- what `stage.execute(node)` does -/
-inductive Outcome where
-  | ok | error | panic
+/-- how `baseStage.Execute` runs the stage -/
+inductive Run where
+  | inline    -- synchronous stage: `execFn()` on the goroutine that started it
+  | pooled    -- `execPool.Submit(ctx, task)` accepted: the task runs on a pool worker
+  | rejected  -- pooled stage whose task the pool does not accept: `Submit` returns without running it
+              -- (the pool is stopped, or the query context is cancelled / past its deadline)
   deriving DecidableEq, Repr, Inhabited
 
-/-- a stage with the stages its `NextStages()` returns after a successful execution -/
+/-- what `execFn` does: `stage.execute(node)` returns nil / an error / panics, or returns nil and
+the completion handler's `stage.NextStages()` panics -/
+inductive Outcome where
+  | ok | error | panic | nextPanic
+  deriving DecidableEq, Repr, Inhabited
+
+/-- a stage: how it is run, whether its `Plan()` panics (evaluated inline by the goroutine that
+starts the stage, before `Execute`), what its execution does, and the stages its `NextStages()`
+returns after a successful execution -/
 inductive Stage where
-  | mk (async : Bool) (out : Outcome) (children : List Stage)
+  | mk (run : Run) (planPanics : Bool) (out : Outcome) (children : List Stage)
   deriving Repr, Inhabited
 
 namespace Stage
+def run : Stage → Run | mk r _ _ _ => r
+def planPanics : Stage → Bool | mk _ p _ _ => p
+def out : Stage → Outcome | mk _ _ o _ => o
+def children : Stage → List Stage | mk _ _ _ c => c
 /-- `baseStage.IsAsync()`: `execPool != nil && ctx != nil` -/
-def async : Stage → Bool | mk a _ _ => a
-def out : Stage → Outcome | mk _ o _ => o
-def children : Stage → List Stage | mk _ _ c => c
+def async (s : Stage) : Bool := s.run != .inline
 
-@[simp] theorem async_mk (a o c) : (mk a o c).async = a := rfl
-@[simp] theorem out_mk (a o c) : (mk a o c).out = o := rfl
-@[simp] theorem children_mk (a o c) : (mk a o c).children = c := rfl
+@[simp] theorem run_mk (r p o c) : (mk r p o c).run = r := rfl
+@[simp] theorem planPanics_mk (r p o c) : (mk r p o c).planPanics = p := rfl
+@[simp] theorem out_mk (r p o c) : (mk r p o c).out = o := rfl
+@[simp] theorem children_mk (r p o c) : (mk r p o c).children = c := rfl
 end Stage
+
+/-- the execution (or the completion handler) panics -/
+def Outcome.panics : Outcome → Bool
+  | .panic | .nextPanic => true
+  | _ => false
 
 /-- the argument `completeStage` passes to `complete` (regenerated from the source on every run) -/
 inductive CompleteArg where
@@ -66,6 +87,9 @@ structure Cfg where
   /-- `pipeline.executeStage` has a deferred `recover` that completes the stage it started when the
   stage panics while executing inline (fixes/C19-stage-recover.patch); `false` = the source as it is -/
   stageRecover : Bool
+  /-- `workerPool.Submit` tells the task's handler when it does not accept the task
+  (fixes/C19-reject-notify.patch); `false`: the task is dropped silently -/
+  rejectNotifies : Bool
   deriving DecidableEq, Repr, Inhabited
 
 /-- atomic instructions (see the header) -/
@@ -134,6 +158,15 @@ structure Eff where
   code : List Instr
   spawn : List Thread
 
+/-- a panic on a goroutine with continuation `rest`: with `stageRecover` it unwinds to the deferred
+recover of the `executeStage` frame that started the stage (or, for a pooled stage's own task —
+`rest = []` — to `execTask`'s recover): `completeStage(stageID, err)` and the continuation goes on.
+Without it the whole continuation is lost: `execTask`'s recover (→ `panicHandle(err)` = `errHandle`
+of the task's stage) or `pipeline.Execute`'s recover (→ `sm.complete(err)`). -/
+def panicEff (cfg : Cfg) (sh : Shared) (pooled : Bool) (rest : List Instr) : Eff :=
+  if cfg.stageRecover then ⟨{ sh with failed := true }, .track true :: rest, []⟩
+  else ⟨{ sh with failed := true }, if pooled then [.track true] else [.fire true true], []⟩
+
 /-- `i` is the first instruction of a goroutine with the remaining continuation `rest`. -/
 def stepInstr (cfg : Cfg) (sh : Shared) (pooled : Bool) (i : Instr) (rest : List Instr) : Eff :=
   match i with
@@ -144,22 +177,25 @@ def stepInstr (cfg : Cfg) (sh : Shared) (pooled : Bool) (i : Instr) (rest : List
     -- sm.executeStage: Lock; pending.Inc(); bookkeeping; Unlock
     ⟨{ sh with pending := sh.pending + 1, registered := sh.registered + 1 }, .launch s :: rest, []⟩
   | .launch s =>
-    -- baseStage.Execute: `if stage.IsAsync() { execPool.Submit(ctx, NewTask(execFn, errHandle)) } else { execFn() }`
-    if s.async then ⟨sh, rest, [⟨true, [.exec s]⟩]⟩ else ⟨sh, .exec s :: rest, []⟩
+    -- `stage.Execute(stage.Plan(), …)`: the argument `stage.Plan()` is evaluated first, inline
+    if s.planPanics then panicEff cfg sh pooled rest
+    else
+      -- baseStage.Execute: `if stage.IsAsync() { execPool.Submit(ctx, NewTask(execFn, errHandle)) } else { execFn() }`
+      match s.run with
+      | .inline => ⟨sh, .exec s :: rest, []⟩
+      | .pooled => ⟨sh, rest, [⟨true, [.exec s]⟩]⟩
+      | .rejected =>
+        -- workerPool.Submit: `if … p.Stopped() { return }` / `case <-ctx.Done(): return`
+        if cfg.rejectNotifies then
+          -- repaired: the pool calls the task's handler (`errHandle`) → completeStage(stageID, err)
+          ⟨{ sh with failed := true }, .track true :: rest, []⟩
+        else ⟨sh, rest, []⟩   -- the registered stage never runs and is never completed
   | .exec s =>
     match s.out with
     | .ok => ⟨sh, handler s ++ rest, []⟩                        -- completeHandle()
     | .error => ⟨{ sh with failed := true }, .track true :: rest, []⟩   -- errHandle(err)
-    | .panic =>
-      if cfg.stageRecover then
-        -- repaired variant: the panic unwinds to the deferred recover of the `executeStage` frame that
-        -- started this stage (inline stage), or to execTask's recover (a pooled stage's own task,
-        -- `rest = []`): either way → completeStage(stageID, err) and the continuation goes on
-        ⟨{ sh with failed := true }, .track true :: rest, []⟩
-      else
-        -- unwinds to execTask's recover (→ panicHandle(err) = errHandle of the task's stage)
-        -- or to pipeline.Execute's recover (→ sm.complete(err))
-        ⟨{ sh with failed := true }, if pooled then [.track true] else [.fire true true], []⟩
+    | .panic => panicEff cfg sh pooled rest
+    | .nextPanic => panicEff cfg sh pooled rest   -- completeHandle(): `stage.NextStages()` panics first
   | .track e =>
     -- completeStage: Lock; (repaired: if err != nil && sm.err == nil { sm.err = err }); bookkeeping; Unlock
     ⟨{ sh with firstErr := sh.firstErr || (decide (cfg.arg = .first) && e) }, .dec e :: rest, []⟩
@@ -222,22 +258,46 @@ theorem runSched_reachable {cfg : Cfg} {s0 : State} :
 /-! ### stage-tree predicates used by the theorems -/
 
 mutual
-/-- no stage of the tree panics -/
+/-- nothing in the tree loses a completion under `cfg`: a panic (in `Plan()`, in the execution, in
+`NextStages()`) occurs only if `executeStage` recovers and completes the stage, a rejected task only
+if the pool notifies the task's handler -/
+def Stage.clean (cfg : Cfg) : Stage → Bool
+  | .mk r pp o cs =>
+    ((!pp && !o.panics) || cfg.stageRecover) && (r != .rejected || cfg.rejectNotifies) && cleanL cfg cs
+def cleanL (cfg : Cfg) : List Stage → Bool
+  | [] => true
+  | c :: cs => c.clean cfg && cleanL cfg cs
+end
+
+mutual
+/-- every pool accepts every task (no stopped pool, no cancelled context): the quantifier of the
+property ("returning, failing or panicking") -/
+def Stage.noReject : Stage → Bool
+  | .mk r _ _ cs => r != .rejected && noRejectL cs
+def noRejectL : List Stage → Bool
+  | [] => true
+  | c :: cs => c.noReject && noRejectL cs
+end
+
+mutual
+/-- no stage of the tree panics (anywhere) and no task is rejected by its pool -/
 def Stage.noPanic : Stage → Bool
-  | .mk _ o cs => o != .panic && noPanicL cs
+  | .mk r pp o cs => !pp && !o.panics && r != .rejected && noPanicL cs
 def noPanicL : List Stage → Bool
   | [] => true
   | c :: cs => c.noPanic && noPanicL cs
 end
 
 mutual
-/-- every panicking stage sits where the code recovers it *and* completes it: it is pooled itself
-(`execTask`'s recover completes the stage through `errHandle`), or it runs inline on the goroutine
-that called `pipeline.Execute` (`onMain`; `Execute`'s recover calls `complete`). -/
+/-- (source without the stage-level recover) every panic sits where the code recovers it *and*
+completes the stage: the execution of a pooled stage (its own task: `execTask`'s recover completes
+it through `errHandle`), or anything running inline on the goroutine that called
+`pipeline.Execute` (`onMain`; `Execute`'s recover calls `complete`); no task is rejected. -/
 def Stage.recoverable (onMain : Bool) : Stage → Bool
-  | .mk a o cs =>
-    if a then recoverableL false cs
-    else (o != .panic || onMain) && recoverableL onMain cs
+  | .mk r pp o cs =>
+    r != .rejected && (!pp || onMain) &&
+    (if r = .inline then (!o.panics || onMain) && recoverableL onMain cs
+     else recoverableL false cs)
 def recoverableL (onMain : Bool) : List Stage → Bool
   | [] => true
   | c :: cs => c.recoverable onMain && recoverableL onMain cs
@@ -246,7 +306,7 @@ end
 mutual
 /-- number of stages -/
 def Stage.size : Stage → Nat
-  | .mk _ _ cs => 1 + sizeL cs
+  | .mk _ _ _ cs => 1 + sizeL cs
 def sizeL : List Stage → Nat
   | [] => 0
   | c :: cs => c.size + sizeL cs
@@ -277,9 +337,10 @@ The fact extractor (`harness/internal/extract/facts_c19.go`) re-reads these from
 (calls, field stores, returns and branch conditions in source order, prefixed by the enclosing
 branch / closure / defer) and `Props/C19.lean` proves the regenerated lists equal to the ones below. -/
 
-/-- the variant the regenerated facts `completePassesFirstError`, `stageRecoversPanic` select -/
-def cfgOf (passesFirstError stageRecovers : Bool) : Cfg :=
-  ⟨if passesFirstError then .first else .own, stageRecovers⟩
+/-- the variant the regenerated facts `completePassesFirstError`, `stageRecoversPanic`,
+`submitRejectNotifies` select -/
+def cfgOf (passesFirstError stageRecovers rejectNotifies : Bool) : Cfg :=
+  ⟨if passesFirstError then .first else .own, stageRecovers, rejectNotifies⟩
 
 /-- `pipelineStateMachine.completeStage`: `track` = the section between Lock and Unlock, `dec` = the
 `Dec() == 0` test, then `fire e e` (own) resp. `load`, `fire firstErr` (first) -/
@@ -333,6 +394,18 @@ def baseStageIsAsyncOrder : List String := ["return stage.execPool != nil && sta
 def execTaskOrder : List String :=
   ["defer:λ1:recover()", "defer:λ1:then:if task.panicHandle != nil",
    "defer:λ1:then:then:task.panicHandle(err)", "task.Exec()"]
+
+/-- `workerPool.Submit` (`launch` of a pooled / rejected stage); with `rejectNotifies` both rejection
+paths go through `reject`, which calls the task's handler -/
+def submitOrder : Bool → List String
+  | false => ["if task.handle == nil || p.Stopped()", "case <-ctx.Done():", "case p.tasks <- task:"]
+  | true => ["if task.handle == nil", "if p.Stopped()", "then:p.reject(task, errPoolStopped)",
+             "case <-ctx.Done():", "case:ctx.Err()", "case:p.reject(task, ctx.Err())", "case p.tasks <- task:"]
+
+/-- `workerPool.reject`; absent without `rejectNotifies` -/
+def rejectOrder : Bool → List String
+  | false => []
+  | true => ["if task.panicHandle != nil", "then:task.panicHandle(err)"]
 
 /-- `LeafExecuteContext.SendResponse` (`Leaf.sendResponse`) -/
 def sendResponseOrder : List String :=
